@@ -20,6 +20,7 @@
  * IN THE SOFTWARE.
  */
 
+#include <QStringList>
 #include <QUrl>
 
 #include <qhttpengine/handler.h>
@@ -57,6 +58,59 @@ void Handler::addSubHandler(const QRegExp &pattern, Handler *handler)
     d->subHandlers.append(SubHandler(pattern, handler));
 }
 
+// Length of the place marker that starts at tmpl[pos] (which is a '%'), or 0 if
+// there is none. The syntax is that of QString::arg(): '%', an optional 'L' and
+// one or two digits; the number (0..99) is stored in *number.
+static int markerAt(const QString &tmpl, int pos, int *number)
+{
+    int i = pos + 1;
+    if (i < tmpl.size() && tmpl.at(i) == QLatin1Char('L')) {
+        ++i;
+    }
+    if (i >= tmpl.size() || tmpl.at(i).digitValue() == -1) {
+        return 0;
+    }
+    *number = tmpl.at(i++).digitValue();
+    if (i < tmpl.size() && tmpl.at(i).digitValue() != -1) {
+        *number = *number * 10 + tmpl.at(i++).digitValue();
+    }
+    return i - pos;
+}
+
+// Substitute the captured texts for the place markers of a redirect template
+// in a single pass: the markers with the k-th lowest number that occurs in the
+// template stand for the k-th capture (what chained QString::arg() calls do
+// with plain texts), but a substituted text is never examined again, so a '%'
+// or a digit that comes from the request cannot form a marker
+static QString substituteCaptures(const QString &tmpl, const QStringList &captures)
+{
+    bool present[100] = {};
+    int number = 0;
+    for (int i = 0; i < tmpl.size();) {
+        int length = tmpl.at(i) == QLatin1Char('%') ? markerAt(tmpl, i, &number) : 0;
+        if (length) {
+            present[number] = true;
+        }
+        i += length ? length : 1;
+    }
+
+    QString result;
+    for (int i = 0; i < tmpl.size();) {
+        int length = tmpl.at(i) == QLatin1Char('%') ? markerAt(tmpl, i, &number) : 0;
+        int rank = 0;
+        for (int n = 0; length && n < number; ++n) {
+            rank += present[n];
+        }
+        if (length && rank < captures.size()) {
+            result += captures.at(rank);
+        } else {
+            result += tmpl.midRef(i, length ? length : 1);
+        }
+        i += length ? length : 1;
+    }
+    return result;
+}
+
 void Handler::route(Socket *socket, const QString &path)
 {
     // Run through each of the middleware
@@ -69,10 +123,7 @@ void Handler::route(Socket *socket, const QString &path)
     // Check each of the redirects for a match
     foreach (Redirect redirect, d->redirects) {
         if (redirect.first.indexIn(path) != -1) {
-            QString newPath = redirect.second;
-            foreach (QString replacement, redirect.first.capturedTexts().mid(1)) {
-                newPath = newPath.arg(replacement);
-            }
+            QString newPath = substituteCaptures(redirect.second, redirect.first.capturedTexts().mid(1));
             // A capture may hold any decoded character, including CR and LF;
             // percent-encode whatever may not appear in a URL, so that nothing
             // taken from the request ends up as raw bytes in the header
